@@ -67,6 +67,8 @@ def gen_case(rng, ver, tier, force=None):
     api = "state" if (ver == "v1" and rng.random() < 0.3) else "messages"
     if ver == "v1" and api == "messages" and not any(kd == "fixed" for kd in kinds) and rng.random() < 0.12:
         api = "prompt"  # completion-style calls generate(prompt=...), each turn a conversation of its own
+    elif ver == "v1" and api == "messages" and rng.random() < 0.12:
+        api = "nocache"  # a stateless deployment: every turn is served without the events cache (history rebuilt from the messages)
     if turns >= 2 and m >= 1 and rng.random() < 0.1:
         spec["same_bot"] = True  # the LLM produces the very same text in every turn
     if rng.random() < 0.25:
